@@ -1252,6 +1252,7 @@ static TypeInfo *parse_generic_type_args(Stage1Parser *p, const char *base_name)
  * 0 after a reported syntax error (the caller returns what it has), -1 when the expression
  * must be dropped (the caller returns NULL). */
 static int parse_postfix_chain(Stage1Parser *p, ASTNode **operand) {
+    int links = 0;
     while (match(p, TOKEN_DOT)) {
         Token *dot_tok = current_token(p);
         if (!dot_tok) {
@@ -1260,6 +1261,13 @@ static int parse_postfix_chain(Stage1Parser *p, ASTNode **operand) {
         }
         int line = dot_tok->line;
         int column = dot_tok->column;
+        /* Each link nests the expression one level deeper (the loop builds a left-deep chain that
+         * every later pass, and free_ast(), walks recursively): same bound as other nesting */
+        if (++links > MAX_RECURSION_DEPTH) {
+            parser_error(p, line, column, "Error at line %d, column %d: Field access chain longer than the maximum (%d).\n",
+                    line, column, MAX_RECURSION_DEPTH);
+            return 0;
+        }
         advance(p);  /* consume '.' */
 
         /* Check if this is a tuple index: tuple.0, tuple.1, etc. */
